@@ -52,6 +52,9 @@ TEMPLATES = [
     # stale).  For a static space the text read is what it always was (`C.X`).
     "def {n}(x): return sum(map(ord, '.'.join('[]' if p.startswith('__Space') else p "
     "for p in _space.fullname.split('.')[1:]))) * 10 + x + {k}",
+    # (not drawn by gen_formula; motif programs only) the same for the name of ANOTHER space, read through the
+    # object-valued reference `{c}` to it: no cells of the renamed space lies between the reader and the name
+    "def {n}(x): return sum(map(ord, {c}.fullname.split('.', 1)[1])) * 10 + x + {k}",
 ]
 N_GEN_TEMPLATES = 16
 N_BASE_TEMPLATES = 11
